@@ -210,11 +210,24 @@ def r_filter(ctx):
               'only_last is read %d times: it must only select the judged string' % len(only_reads), nontrivial=False)
     # ---- collect the rejecting tests
     rejects = []
+
+    def add_reject(nd, t, pol, tn):
+        # a rejecting disjunction is one rejecting test per disjunct
+        if t[0] == 'bool' and ((t[1] == 'or' and pol) or (t[1] == 'and' and not pol)):
+            for x in t[2:]:
+                add_reject(nd, x, pol, tn)
+        elif t[0] == 'un' and t[1] == 'not':
+            add_reject(nd, t[2], not pol, tn)
+        else:
+            rejects.append((nd, t, pol, tn))
     for nd in f.stmts(ast.Return):
         v = nd.stmt.value
         if isinstance(v, ast.Constant) and v.value is False and nd.conds:
             test, pol, tid = nd.conds[-1]
-            rejects.append((nd, f.term(test, f.nodes[tid]), pol, f.nodes[tid]))
+            add_reject(nd, f.term(test, f.nodes[tid]), pol, f.nodes[tid])
+        elif v is not None and not isinstance(v, ast.Constant) and isinstance(v, (ast.UnaryOp, ast.Compare, ast.BoolOp)):
+            # `return E`: the string is rejected exactly when E is false
+            add_reject(nd, f.term(v, nd), False, nd)
     J = None
     found = {'char': 0, 'run': 0, 'motif': 0, 'rc': 0, 'gc': []}
     for nd, t, pol, tn in rejects:
